@@ -128,3 +128,87 @@ def meta_stream(props, name="meta-cosim"):
         res.distribution["lockstep_chunks_compared"] = len(batch)
         return res
     return stream
+
+
+def data_fine_stream(props, name="data-fine-grained-exploration"):
+    """The real Data server with LINE-LEVEL preemption inside server.py / subscription.py (sys.settrace): no
+    lock-step model comparison is possible at this granularity; the properties' oracles are evaluated on the
+    real trace.  This exercises what the chunk-level co-simulation takes for granted: that every access to
+    shared state happens inside the lock-protected sections (a narrowed lock shows up only here)."""
+    def stream(tier):
+        R0 = C.rng("conc-data-fine")
+        res = Result(name)
+        n = {"quick": 150, "search": 1200, "thorough": 6000}[tier]
+        for i in range(n):
+            seed = R0.getrandbits(48)
+            R = random.Random(seed)
+            scn = CD.gen_scenario(R, "small")
+            scn["fine_seed"] = seed ^ 0xF1E2D3
+            scn["fine_p"] = R.choice([0.05, 0.15, 0.3])
+            SR = random.Random(seed ^ 0x5DEECE66D)
+            choices = []
+
+            def choose(names, ops, SR=SR, choices=choices):
+                c = SR.choice(names)
+                choices.append(c)
+                return c
+            run = CD.run_real(scn, choose)
+            A = CD.analyse(run)
+            res.evaluations += 1
+            res.traces += 1
+            res.distribution["chunks"] += len(run.chunks)
+            res.distribution["line_preemptions"] += sum(1 for ch in run.chunks if ch["op"][0] == "line")
+            res.distribution["status_" + run.status] += 1
+            if any(ch["op"][0] == "line" for ch in run.chunks):
+                res.nontrivial.add(seed)
+            if run.errors:
+                res.violation("thread-died", "an exception escaped a library thread: %s" % (run.errors,), {"seed": seed, "scenario": _compact(scn)})
+            if run.status not in ("quiescent",):
+                res.violation("no-quiescence", "the run ended with status %s (deadlock or runaway)" % run.status, {"seed": seed, "scenario": _compact(scn)})
+            for p in props:
+                CD.ORACLES[p](run, A, lambda sig, what, seed=seed, scn=scn, choices=choices, p=p: res.violations.append(
+                    {"signature": sig, "what": what, "property": p,
+                     "input": {"seed": seed, "fine_grained": True, "scenario": _compact(scn), "schedule": choices[:600]}}) if len(res.violations) < 50 else None)
+            if i < 1:
+                res.sample({"scenario": _compact(scn), "line_level_preemption": True, "chunks": len(run.chunks)})
+        return res
+    return stream
+
+
+def meta_fine_stream(props, name="meta-fine-grained-exploration"):
+    """Metadata server with line-level preemption inside server.py (oracles only; see data_fine_stream)."""
+    import cosim_meta as CM
+
+    def stream(tier):
+        R0 = C.rng("conc-meta-fine")
+        res = Result(name)
+        n = {"quick": 100, "search": 600, "thorough": 4000}[tier]
+        for i in range(n):
+            seed = R0.getrandbits(48)
+            R = random.Random(seed)
+            scn = CM.gen_scenario(R)
+            scn["fine_seed"] = seed ^ 0xA5A5A5
+            scn["fine_p"] = R.choice([0.05, 0.15, 0.3])
+            SR = random.Random(seed ^ 0x9E3779B97F4A)
+            choices = []
+
+            def choose(names, ops, SR=SR, choices=choices):
+                c = SR.choice(names)
+                choices.append(c)
+                return c
+            run = CM.run_real(scn, choose)
+            A = CM.analyse(run)
+            comp = {"pool_arg": scn["pool_arg"], "handler": scn["handler"], "block": scn["block"],
+                    "requests": [(r["id"], r["method"], r["kind"]) for r in scn["requests"]]}
+            res.evaluations += 1
+            res.traces += 1
+            res.distribution["line_preemptions"] += sum(1 for ch in run.chunks if ch["op"][0] == "line")
+            res.nontrivial.add(seed)
+            if run.errors:
+                res.violation("thread-died", "an exception escaped a library thread: %s" % (run.errors,), {"seed": seed, "scenario": comp})
+            for p in props:
+                CM.ORACLES[p](run, A, lambda sig, what, seed=seed, comp=comp, choices=choices, p=p: res.violations.append(
+                    {"signature": sig, "what": what, "property": p, "input": {"seed": seed, "fine_grained": True, "scenario": comp, "schedule": choices[:400]}})
+                    if len(res.violations) < 50 else None)
+        return res
+    return stream
